@@ -12,6 +12,7 @@ PARTS = [
 
 def run(c):
     c.proofs("theories/Properties/C20.v", clean=(c.tier == "thorough"))
+    c.translate(['TieCron'])  # T1: formulas / constants regenerated from the source, tie theorems re-checked
     for sub, ctype, corr, spec, prem, nq, nt in PARTS:
         n = nq if c.tier == "quick" else nt
         if c.replay:
